@@ -623,7 +623,67 @@ impl Hist {
     }
 
     pub fn op_reward(&mut self, _w: &mut World, _p: usize, _monitors: &mut [Box<dyn Monitor>], _acc: &mut Acc) {}
-    pub fn op_two_hop(&mut self, _w: &mut World, _monitors: &mut [Box<dyn Monitor>], _acc: &mut Acc) {}
+    /// (p1, p2, a_to_b_one, a_to_b_two) combinations whose legs chain through a shared mint.
+    pub fn two_hop_routes(w: &World) -> Vec<(usize, usize, bool, bool)> {
+        let mut v = vec![];
+        for p1 in 0..w.pools.len() {
+            for p2 in 0..w.pools.len() {
+                if p1 == p2 {
+                    continue;
+                }
+                for d1 in [true, false] {
+                    for d2 in [true, false] {
+                        let out1 = if d1 { w.pools[p1].mint_b } else { w.pools[p1].mint_a };
+                        let in2 = if d2 { w.pools[p2].mint_a } else { w.pools[p2].mint_b };
+                        if out1 == in2 {
+                            v.push((p1, p2, d1, d2));
+                        }
+                    }
+                }
+            }
+        }
+        v
+    }
+
+    pub fn op_two_hop(&mut self, w: &mut World, monitors: &mut [Box<dyn Monitor>], acc: &mut Acc) {
+        let routes = Self::two_hop_routes(w);
+        if routes.is_empty() {
+            return;
+        }
+        let (mut p1, mut p2, mut d1, mut d2) = *rnd::pick(&mut w.r, &routes);
+        if rnd::chance(&mut w.r, 1, 12) {
+            // hostile: same pool twice, or legs that do not chain
+            p1 = w.r.gen_range(0..w.pools.len());
+            p2 = if w.r.gen() { p1 } else { w.r.gen_range(0..w.pools.len()) };
+            d1 = w.r.gen();
+            d2 = w.r.gen();
+        }
+        let exact_in = rnd::chance(&mut w.r, 1, 2);
+        let u = w.r.gen_range(0..w.users.len());
+        // amounts small enough that both legs usually stay inside their liquidity
+        let (s1, s2) = (w.pool_state(p1), w.pool_state(p2));
+        let l = s1.liquidity.min(s2.liquidity).max(1);
+        let amount = match w.r.gen_range(0..6) {
+            0 => 1,
+            1 => rnd::log_u64(&mut w.r).max(1),
+            _ => ((l >> w.r.gen_range(6..40)).min(u64::MAX as u128) as u64).max(1),
+        };
+        let lim = |w: &mut World, st: &codec::Pool, a_to_b: bool| -> u128 {
+            match w.r.gen_range(0..4) {
+                0 | 1 => 0,
+                2 => if a_to_b { MIN_SQRT_PRICE_X64 } else { MAX_SQRT_PRICE_X64 },
+                _ => {
+                    let d = (st.sqrt_price >> w.r.gen_range(8..30)).max(1);
+                    if a_to_b { st.sqrt_price.saturating_sub(d).max(MIN_SQRT_PRICE_X64) } else { st.sqrt_price.saturating_add(d).min(MAX_SQRT_PRICE_X64) }
+                }
+            }
+        };
+        let (l1, l2) = (lim(w, &s1, d1), lim(w, &s2, d2));
+        let threshold = if exact_in { 0 } else { u64::MAX };
+        let v2 = w.r.gen();
+        let ix = w.two_hop_ix(p1, p2, u, amount, threshold, exact_in, d1, d2, l1, l2, v2);
+        self.step(w, ix, monitors, acc);
+    }
 }
 
 /// State seeding (DESIGN.md section 2): only while the pool has no liquidity, no initialised tick and no
